@@ -70,9 +70,11 @@ def hist_scope(repo, pid):
         fn = g.mods[rel].functions[q]
         cls = q.split('.')[0] if '.' in q else None
         nxt = []
+        resolved = set()
         try:
             for (ck, _c, _k, _n) in g.callees(key, cls, None):
                 nxt.append(ck)
+                resolved.add(id(_n))
         except Exception:
             pass
         # every load of a name that denotes a function or class (function values, dispatch tables, constructors)
@@ -87,7 +89,8 @@ def hist_scope(repo, pid):
                     crel, cnode = g.classes[r[1]]
                     nxt += [(crel, '%s.%s' % (r[1], f.name)) for f in cnode.body if isinstance(f, ast.FunctionDef)]
             # attribute calls on unresolved receivers: any method of that name in a class already in scope's modules
-            if isinstance(n, ast.Call) and isinstance(n.func, ast.Attribute):
+            if isinstance(n, ast.Call) and isinstance(n.func, ast.Attribute) and id(n) not in resolved and not (
+                    isinstance(n.func.value, ast.Name) and n.func.value.id in ('self', 'cls')):      # self.m() is resolved by class above
                 for cn, (crel, cnode) in g.classes.items():
                     for f in cnode.body:
                         if isinstance(f, ast.FunctionDef) and f.name == n.func.attr and (crel == rel or (crel, cn) in {(k[0], k[1].split('.')[0]) for k in scope}):
